@@ -9,14 +9,15 @@
 (***************************************************************************)
 EXTENDS SimpleFont
 
-CONSTANT MaxDiff
+CONSTANTS MaxDiff,
+          PrecKinds     \* font kinds crossed with the Encoding-dictionary forms in FontsPrec
 
 I(n) == [t |-> "int", v |-> n, g |-> ""]
 N(g) == [t |-> "name", v |-> 0, g |-> g]
 E(c, g) == [c |-> c, g |-> g]
 SeqsUpTo(S, n) == UNION {[1..k -> S] : k \in 0..n}
 
-F0 == [kind |-> "Type1", enc |-> "dict", base |-> "win", diff |-> <<>>, tu |-> <<>>, file |-> FALSE, ent |-> <<>>,
+F0 == [kind |-> "Type1", enc |-> "dict", base |-> "win", diff |-> <<>>, tu |-> <<>>, file |-> FALSE, std |-> FALSE, ent |-> <<>>,
        fc |-> 1, widths |-> <<600, 0, 725>>, mw |-> -1, fm |-> "m001"]
 Tu3 == [1..3 -> {"none", "t1", "t2"}]
 TuOne == <<"none", "t1", "none">>
@@ -32,7 +33,7 @@ EncDict == {<<"dict", "absent">>, <<"dict", "win">>, <<"dict", "mac">>, <<"dict"
 FontsPrec ==
   {[F0 EXCEPT !.kind = k, !.enc = eb[1], !.base = eb[2], !.tu = t] : k \in {"Type1", "Type3"}, eb \in EncPlain, t \in Tu3}
   \cup {[F0 EXCEPT !.kind = k, !.enc = eb[1], !.base = eb[2], !.tu = t, !.diff = d] :
-          k \in {"Type1", "Type3"}, eb \in EncDict, t \in Tu3, d \in SeqsUpTo({I(2), N("gA"), N("gBad")}, 2)}
+          k \in PrecKinds, eb \in EncDict, t \in Tu3, d \in SeqsUpTo({I(2), N("gA"), N("gBad")}, 2)}
 
 \* (3) widths: FirstChar/Widths windows, MissingWidth, Type3 font matrices, standard-14 metrics by character
 WidthSeqs == {<<>>, <<500>>, <<500, 0>>, <<500, 0, 725>>, <<500, 0, 725, 1000>>}
@@ -60,10 +61,13 @@ FontsBuiltin ==
   \cup {[F0 EXCEPT !.file = TRUE, !.ent = es, !.diff = <<I(2), N("gB")>>] : es \in EntSeqs}
   \cup {[F0 EXCEPT !.kind = "MMType1", !.enc = "absent", !.base = "", !.file = TRUE, !.ent = es] :
           es \in {<<>>, <<E(2, "gA")>>, <<E(1, "gBad"), E(3, "gB")>>}}
+  \* the program declares "/Encoding StandardEncoding def" (with or without a ToUnicode map / an Encoding entry)
+  \cup {[F0 EXCEPT !.kind = k, !.enc = eb[1], !.base = eb[2], !.file = TRUE, !.std = TRUE, !.tu = t] :
+          k \in {"Type1", "MMType1"}, eb \in {<<"absent", "">>, <<"name", "mac">>}, t \in {<<>>, TuOne}}
 
 \* pattern of latin_enc at bytes 0..7 (nothing defined) and 124..131, for hand runs
 SampleDefined(b, byte) == byte \in 124..126 \/ (b \in {"mac", "win", "pdf"} /\ byte \in 128..131)
                           \/ (b = "pdf" /\ byte = 127 /\ FALSE)
-AllDev == {"DiffKeepsBase", "HeaderValueError", "Type3SkewWidth"}
+AllDev == {"DiffKeepsBase", "HeaderValueError", "Type3SkewWidth", "BuiltinStdIgnored"}
 NoDev == {}
 =============================================================================
